@@ -25,7 +25,7 @@ def run(ctx):
         if res is not None and res.get("M") is not None:
             ctx.oblige("correspondence:work-verdicts recomputed inside Coq (M = [])", not res["M"], str(res["M"][:30]))
             if res["M"]:
-                ctx.violations.append({"kind": "coq-work-verdict", "sig": "c05 verdict cases %s" % res["M"][:20], "detail": {"ids": res["M"][:100]}})
+                ctx.violations.append({"kind": "coq-work-verdict", "static": True, "sig": "c05 verdict cases %s" % res["M"][:20], "detail": {"ids": res["M"][:100]}})
     ctx.coverage["explanation"] = (
         "Coq (Cost.v, Backtrack.v, Cache.v): step-counting models with bounds proved for all NFAs and haystacks: the set-simulating PikeVM "
         "performs <= 2*|N|*(len+1) thread insertions; the bounded backtracker writes each visited cell at most once per start "
